@@ -65,7 +65,7 @@ def run(chk, facts, tier):
             ok = fn.name == 'legacy_handle_pairing_random' and any(op == '==' and not isinstance(r, int) and (strip_casts(l).is_call('mconfirm') or strip_casts(r).is_call('mconfirm')) for l, op, r in guard_atoms(fn, c))
             chk.instance('completion-callers', fn, 'legacy_pairing_completed() in ' + fn.name, ok, '' if ok else 'STK accepted without the confirm check', node=c, key='legacy in ' + fn.name)
         for c in fn.body.calls('lesc_pairing_completed'):
-            ok = any(op == '!=' and cval(r) == 0 and not isinstance(l, int) and strip_casts(l).is_call('equal') and any(mentions(a, 'input') for a in strip_casts(l).args()) for l, op, r in guard_atoms(fn, c))
+            ok = ea_verified(facts, fn, c)
             chk.instance('completion-callers', fn, 'lesc_pairing_completed() in ' + fn.name, ok, '' if ok else 'LTK accepted although the central\'s DHKey check was never compared', node=c, key='lesc in ' + fn.name)
     for fn in variants(facts, 'bluetoe::bonding_data_base::bonding_db_data_t::find_key', chk):
         rets = fn.returns()
